@@ -32,6 +32,9 @@ pub struct Row {
 /// 2: ts Timestamp(ns,UTC), metric, value_f64, id
 /// 3: ts Timestamp(ns,UTC), metric, host(nullable), value_i64, value_f64, value_u64, id
 /// 4: like 3 with an Int64 timestamp
+/// 5: like 0 with the value column declared non-nullable (differs from 0 in nullability only)
+/// 6: like 0 with the columns in another order (id before value_i64)
+/// 7: like 0 with schema-level metadata (differs from 0 in metadata only)
 pub fn schema(variant: u32) -> SchemaRef {
     let ts_int = Field::new("timestamp", DataType::Int64, false);
     let ts_ts = Field::new("timestamp", DataType::Timestamp(TimeUnit::Nanosecond, Some("UTC".into())), false);
@@ -43,6 +46,9 @@ pub fn schema(variant: u32) -> SchemaRef {
     let id = Field::new("id", DataType::Int64, false);
     Arc::new(match variant {
         0 => Schema::new(vec![ts_int, metric, vi, id]),
+        5 => Schema::new(vec![ts_int, metric, Field::new("value_i64", DataType::Int64, false), id]),
+        6 => Schema::new(vec![ts_int, metric, id, vi]),
+        7 => Schema::new(vec![ts_int, metric, vi, id]).with_metadata([("origin".to_string(), "agent-7".to_string())].into_iter().collect()),
         1 => Schema::new(vec![ts_int, metric, host, vi, id]),
         2 => Schema::new(vec![ts_ts, metric, vf, id]),
         4 => Schema::new(vec![ts_int, metric, host, vi, vf, vu, id]),
@@ -53,19 +59,25 @@ pub fn schema(variant: u32) -> SchemaRef {
 pub fn batch(variant: u32, rows: &[Row]) -> RecordBatch {
     let s = schema(variant);
     let ts: Vec<i64> = rows.iter().map(|r| r.ts).collect();
-    let ts_col: ArrayRef = if variant <= 1 || variant == 4 {
+    let ts_col: ArrayRef = if variant <= 1 || variant >= 4 {
         Arc::new(Int64Array::from(ts))
     } else {
         Arc::new(TimestampNanosecondArray::from(ts).with_timezone("UTC"))
     };
     let metric: ArrayRef = Arc::new(StringArray::from(rows.iter().map(|r| r.metric.clone()).collect::<Vec<_>>()));
     let host: ArrayRef = Arc::new(StringArray::from(rows.iter().map(|r| r.host.clone()).collect::<Vec<_>>()));
-    let vi: ArrayRef = Arc::new(Int64Array::from(rows.iter().map(|r| r.vi).collect::<Vec<_>>()));
+    let vi: ArrayRef = if variant == 5 {
+        // declared non-nullable: NULLs become 0 (the rows' canonical strings are taken from the batch, not from `Row`)
+        Arc::new(Int64Array::from(rows.iter().map(|r| r.vi.unwrap_or(0)).collect::<Vec<i64>>()))
+    } else {
+        Arc::new(Int64Array::from(rows.iter().map(|r| r.vi).collect::<Vec<_>>()))
+    };
     let vf: ArrayRef = Arc::new(Float64Array::from(rows.iter().map(|r| r.vf).collect::<Vec<_>>()));
     let vu: ArrayRef = Arc::new(UInt64Array::from(rows.iter().map(|r| r.vu).collect::<Vec<_>>()));
     let id: ArrayRef = Arc::new(Int64Array::from(rows.iter().map(|r| r.id).collect::<Vec<_>>()));
     let cols = match variant {
-        0 => vec![ts_col, metric, vi, id],
+        0 | 5 | 7 => vec![ts_col, metric, vi, id],
+        6 => vec![ts_col, metric, id, vi],
         1 => vec![ts_col, metric, host, vi, id],
         2 => vec![ts_col, metric, vf, id],
         4 => vec![ts_col, metric, host, vi, vf, vu, id],
